@@ -78,6 +78,11 @@ def bootstrap_ci(
     alpha_lower = alpha / 2.0
     alpha_upper = 1 - alpha / 2.0
 
+    # We work in floating point: quantiles of small integer (or boolean) types wrap
+    # around and the powers below overflow. Extended precision is kept as it is.
+    theta = np.asarray(theta)
+    theta = theta.astype(np.result_type(theta.dtype, float), copy=False)
+
     if method == "quantile":
         alpha_joint = np.stack([alpha_lower, alpha_upper], axis=0)  # (2, Z')
         ci = np.nanquantile(theta, q=alpha_joint, axis=0)  # (2, Z', Y)
@@ -92,8 +97,7 @@ def bootstrap_ci(
         # Flatten the metric shape to a vector
         nb_samples = theta.shape[0]
         metric_shape = theta.shape[1:]
-        # Floating point, so that the powers below cannot overflow for integer metrics.
-        theta = np.reshape(theta, (nb_samples, -1)).astype(float)
+        theta = np.reshape(theta, (nb_samples, -1))
         theta_hat = np.reshape(theta_hat, (1, -1))
         metric_size = theta.shape[-1]
 
